@@ -61,7 +61,7 @@ CONSTANTS
   Max,          \* maxNumTxns
   NPushers, NConsumers,
   Batch,        \* sequencer.NumTxnsToBatchExecute
-  MaxPush, MaxBlocks, MaxFail, MaxCrash, MaxClose, MaxPops, MaxExecErr,
+  MaxPush, MaxBlocks, MaxFail, MaxCrash, MaxClose, MaxPops, MaxExecErr, MaxFatal,
   DedupFix, OverflowFix,
   Mutant        \* "none"; otherwise a deliberately broken variant (expected-violation configs)
 
@@ -83,24 +83,24 @@ VARIABLES
   cs,        \* [Consumers -> "drain" | "wait" | "dead" | "off"]
   height, hn,       \* chain: number of blocks, head nonce per account
   \* bounds
-  npush, nblk, nfail, ncrash, nclose, npop, nerr,
+  npush, nblk, nfail, ncrash, nclose, npop, nerr, nfatal,
   \* ghosts
   acc,       \* transactions appended to the in-memory list of this incarnation, in order
   popd,      \* transactions popped in this incarnation, in order
   everPopped,\* popped in an EARLIER incarnation
   want,      \* transactions handed to the writer (first occurrences), in order
+  owed,      \* transactions the pool still owes persistence: handed to the writer, no write failure logged
   wlog,      \* transactions whose batch was applied, in order
-  lostw,     \* TRUE once a batch failed / was skipped (then only "subsequence" can be promised)
   exec,      \* batches handed to the executor: <<txs, outcome>>
   \* outputs
   out, act, res
 
 vars == <<st, mem, wq, wcur, dh, dt, dl, dn, token, pu, cs, height, hn,
-          npush, nblk, nfail, ncrash, nclose, npop, nerr,
-          acc, popd, everPopped, want, wlog, lostw, exec, out, act, res>>
+          npush, nblk, nfail, ncrash, nclose, npop, nerr, nfatal,
+          acc, popd, everPopped, want, owed, wlog, exec, out, act, res>>
 view == <<st, mem, wq, wcur, dh, dt, dl, dn, token, pu, cs, height, hn,
-          npush, nblk, nfail, ncrash, nclose, npop, nerr,
-          acc, popd, everPopped, want, wlog, lostw, exec>>
+          npush, nblk, nfail, ncrash, nclose, npop, nerr, nfatal,
+          acc, popd, everPopped, want, owed, wlog, exec>>
 
 Range(s) == {s[i] : i \in DOMAIN s}
 Min(a, b) == IF a < b THEN a ELSE b
@@ -143,14 +143,14 @@ Init ==
   /\ pu = [p \in Pushers |-> IdleP]
   /\ cs = [c \in Consumers |-> "drain"]
   /\ height = (IF StartEmpty THEN 0 ELSE 1) /\ hn = [a \in Accs |-> 0]
-  /\ npush = 0 /\ nblk = 0 /\ nfail = 0 /\ ncrash = 0 /\ nclose = 0 /\ npop = 0 /\ nerr = 0
-  /\ acc = <<>> /\ popd = <<>> /\ everPopped = {} /\ want = <<>> /\ wlog = <<>> /\ lostw = FALSE /\ exec = <<>>
+  /\ npush = 0 /\ nblk = 0 /\ nfail = 0 /\ ncrash = 0 /\ nclose = 0 /\ npop = 0 /\ nerr = 0 /\ nfatal = 0
+  /\ acc = <<>> /\ popd = <<>> /\ everPopped = {} /\ want = <<>> /\ owed = {} /\ wlog = <<>> /\ exec = <<>>
   /\ out = [p \in Pushers |-> "none"] /\ act = [name |-> "Init"] /\ res = [kind |-> "none"]
 
-Bounds == <<npush, nblk, nfail, ncrash, nclose, npop, nerr>>
+Bounds == <<npush, nblk, nfail, ncrash, nclose, npop, nerr, nfatal>>
 Chain == <<height, hn>>
 Db == <<dh, dt, dl, dn>>
-Ghosts == <<acc, popd, everPopped, want, wlog, lostw, exec>>
+Ghosts == <<acc, popd, everPopped, want, owed, wlog, exec>>
 
 Up == st \in {"open", "closing", "closed"}        \* a pool object exists and answers
 
@@ -172,11 +172,11 @@ PushStart(p, t) ==
   /\ pu' = [pu EXCEPT ![p] = [pc |-> Order[1], t |-> t, eff |-> FALSE, pushed |-> FALSE]]
   /\ npush' = npush + 1 /\ out' = [out EXCEPT ![p] = "running"]
   /\ act' = [name |-> "PushStart", p |-> p, t |-> t] /\ res' = [kind |-> "none"]
-  /\ UNCHANGED <<st, mem, wq, wcur, Db, token, cs, Chain, nblk, nfail, ncrash, nclose, npop, nerr, Ghosts>>
+  /\ UNCHANGED <<st, mem, wq, wcur, Db, token, cs, Chain, nblk, nfail, ncrash, nclose, npop, nerr, nfatal, Ghosts>>
 
 VLen(p) ==
   /\ pu[p].pc = "vlen"
-  /\ IF Len(mem) + 1 >= Max THEN Finish(p, "full") ELSE Advance(p, "vlen", pu[p].eff, pu[p].pushed)
+  /\ IF Len(mem) + 1 >= Max /\ Mutant # "nocap" THEN Finish(p, "full") ELSE Advance(p, "vlen", pu[p].eff, pu[p].pushed)
   /\ act' = [name |-> "VLen", p |-> p] /\ res' = [kind |-> "none"]
   /\ UNCHANGED <<st, mem, wq, wcur, Db, token, cs, Chain, Bounds, Ghosts>>
 
@@ -193,16 +193,17 @@ Enq(p) ==
   /\ LET t == pu[p].t IN
      IF st # "open"
      THEN /\ Finish(p, IF pu[p].pushed THEN "panic-after-push" ELSE "panic")     \* send on closed channel
-          /\ UNCHANGED <<wq, want>>
+          /\ UNCHANGED <<wq, want, owed>>
      ELSE IF Len(wq) < Max
      THEN /\ wq' = Append(wq, t)
           /\ want' = IF t \in Range(want) THEN want ELSE Append(want, t)
+          /\ owed' = owed \cup {t}
           /\ Advance(p, "enq", TRUE, pu[p].pushed)
-     ELSE /\ UNCHANGED <<wq, want>>
+     ELSE /\ UNCHANGED <<wq, want, owed>>
           /\ IF OverflowFix THEN Advance(p, "enq", TRUE, pu[p].pushed)       \* logged, not persisted
              ELSE pu' = [pu EXCEPT ![p].pc = "drop", ![p].eff = TRUE] /\ out' = out
   /\ act' = [name |-> "Enq", p |-> p] /\ res' = [kind |-> "none"]
-  /\ UNCHANGED <<st, mem, wcur, Db, token, cs, Chain, Bounds, acc, popd, everPopped, wlog, lostw, exec>>
+  /\ UNCHANGED <<st, mem, wcur, Db, token, cs, Chain, Bounds, acc, popd, everPopped, wlog, exec>>
 
 (* the inner select of the default branch: case _, ok := <-dbWriteChan  (takes a waiting transaction) *)
 Drop(p) ==
@@ -210,7 +211,7 @@ Drop(p) ==
   /\ IF wq # <<>> THEN wq' = Tail(wq) ELSE UNCHANGED wq
   /\ Advance(p, "enq", TRUE, pu[p].pushed)
   /\ act' = [name |-> "Drop", p |-> p] /\ res' = [kind |-> "none"]
-  /\ UNCHANGED <<st, mem, wcur, Db, token, cs, Chain, Bounds, acc, popd, everPopped, want, wlog, lostw, exec>>
+  /\ UNCHANGED <<st, mem, wcur, Db, token, cs, Chain, Bounds, acc, popd, everPopped, want, owed, wlog, exec>>
 
 MemPush(p) ==
   /\ pu[p].pc = "mem"
@@ -220,7 +221,7 @@ MemPush(p) ==
      ELSE /\ mem' = (IF Mutant = "lifo" THEN <<t>> \o mem ELSE Append(mem, t)) /\ acc' = Append(acc, t)
           /\ Advance(p, "mem", TRUE, TRUE)
   /\ act' = [name |-> "MemPush", p |-> p] /\ res' = [kind |-> "none"]
-  /\ UNCHANGED <<st, wq, wcur, Db, token, cs, Chain, Bounds, popd, everPopped, want, wlog, lostw, exec>>
+  /\ UNCHANGED <<st, wq, wcur, Db, token, cs, Chain, Bounds, popd, everPopped, want, owed, wlog, exec>>
 
 Signal(p) ==
   /\ pu[p].pc = "sig"
@@ -233,6 +234,7 @@ PushInternal(p) == VLen(p) \/ VState(p) \/ Enq(p) \/ Drop(p) \/ MemPush(p) \/ Si
 (* ---------------------------------------------------------------- the writer goroutine *)
 WTake ==
   /\ st \in {"open", "closing"} /\ wcur = None /\ wq # <<>>
+  /\ (Mutant = "splitlen" => dl = Len(wlog))
   /\ wcur' = Head(wq) /\ wq' = Tail(wq)
   /\ act' = [name |-> "WTake"] /\ res' = [kind |-> "none"]
   /\ UNCHANGED <<st, mem, Db, token, pu, cs, Chain, Bounds, Ghosts, out>>
@@ -242,16 +244,26 @@ WTake ==
 WWrite(o) ==
   /\ st \in {"open", "closing"} /\ wcur # None
   /\ IF o = "fail"
-     THEN /\ nfail < MaxFail /\ nfail' = nfail + 1 /\ lostw' = TRUE /\ UNCHANGED <<Db, wlog>>
-     ELSE /\ nfail' = nfail
-          /\ IF DedupFix /\ dn[wcur] # Absent
-             THEN UNCHANGED <<Db, wlog, lostw>>                       \* already in the log: skipped
+     THEN /\ nfail < MaxFail /\ nfail' = nfail + 1 /\ UNCHANGED <<Db, wlog>>
+          \* the error is logged: the transaction is known not to be persisted (unless another copy is or will be)
+          /\ owed' = IF wcur \in Range(wlog) \/ wcur \in Range(wq) THEN owed ELSE owed \ {wcur}
+     ELSE /\ nfail' = nfail /\ owed' = owed
+          /\ IF (DedupFix /\ dn[wcur] # Absent) \/ (Mutant = "skipwrite" /\ dl = 1)
+             THEN UNCHANGED <<Db, wlog>>                       \* already in the log: skipped
              ELSE LET w == Written(wcur) IN
-                  /\ dh' = w.h /\ dt' = w.t /\ dl' = w.l /\ dn' = w.n
-                  /\ wlog' = Append(wlog, wcur) /\ lostw' = lostw
+                  /\ dh' = w.h /\ dt' = w.t /\ dn' = w.n
+                  /\ dl' = (IF Mutant = "splitlen" THEN dl ELSE w.l)
+                  /\ wlog' = Append(wlog, wcur)
   /\ wcur' = None
   /\ act' = [name |-> "WWrite", o |-> o] /\ res' = [kind |-> "none"]
-  /\ UNCHANGED <<st, mem, wq, token, pu, cs, Chain, npush, nblk, ncrash, nclose, npop, nerr, acc, popd, everPopped, want, exec, out>>
+  /\ UNCHANGED <<st, mem, wq, token, pu, cs, Chain, npush, nblk, ncrash, nclose, npop, nerr, nfatal, acc, popd, everPopped, want, exec, out>>
+
+(* mutant "splitlen" only: the length record is written on its own, after the batch *)
+WLen ==
+  /\ Mutant = "splitlen" /\ st \in {"open", "closing"} /\ wcur = None /\ dl < Len(wlog)
+  /\ dl' = dl + 1
+  /\ act' = [name |-> "WLen"] /\ res' = [kind |-> "none"]
+  /\ UNCHANGED <<st, mem, wq, wcur, dh, dt, dn, token, pu, cs, Chain, Bounds, Ghosts, out>>
 
 (* ---------------------------------------------------------------- Pop / PopBatch / Len / Wait *)
 Take(k) == SubSeq(mem, 1, k)
@@ -262,7 +274,7 @@ Pop ==
   /\ IF mem = <<>> THEN res' = [kind |-> "empty"] /\ UNCHANGED <<mem, popd>>
      ELSE res' = [kind |-> "txs", txs |-> Take(1)] /\ mem' = Rest(1) /\ popd' = popd \o Take(1)
   /\ act' = [name |-> "Pop"]
-  /\ UNCHANGED <<st, wq, wcur, Db, token, pu, cs, Chain, npush, nblk, nfail, ncrash, nclose, nerr, acc, everPopped, want, wlog, lostw, exec, out>>
+  /\ UNCHANGED <<st, wq, wcur, Db, token, pu, cs, Chain, npush, nblk, nfail, ncrash, nclose, nerr, nfatal, acc, everPopped, want, owed, wlog, exec, out>>
 
 PopBatch(n) ==
   /\ Up /\ npop < MaxPops /\ npop' = npop + 1
@@ -271,14 +283,14 @@ PopBatch(n) ==
      ELSE LET k == Min(n, Len(mem)) IN
           res' = [kind |-> "txs", txs |-> Take(k)] /\ mem' = Rest(k) /\ popd' = popd \o Take(k)
   /\ act' = [name |-> "PopBatch", n |-> n]
-  /\ UNCHANGED <<st, wq, wcur, Db, token, pu, cs, Chain, npush, nblk, nfail, ncrash, nclose, nerr, acc, everPopped, want, wlog, lostw, exec, out>>
+  /\ UNCHANGED <<st, wq, wcur, Db, token, pu, cs, Chain, npush, nblk, nfail, ncrash, nclose, nerr, nfatal, acc, everPopped, want, owed, wlog, exec, out>>
 
-(* non-blocking receive on Wait() *)
+(* non-blocking receive on Wait() by the caller itself (only when no listener shares the channel) *)
 WaitPoll ==
-  /\ Up /\ npop < MaxPops /\ npop' = npop + 1
+  /\ Up /\ NConsumers = 0 /\ npop < MaxPops /\ npop' = npop + 1
   /\ res' = [kind |-> IF token = 1 THEN "token" ELSE "none"] /\ token' = 0
   /\ act' = [name |-> "WaitPoll"]
-  /\ UNCHANGED <<st, mem, wq, wcur, Db, pu, cs, Chain, npush, nblk, nfail, ncrash, nclose, nerr, Ghosts, out>>
+  /\ UNCHANGED <<st, mem, wq, wcur, Db, pu, cs, Chain, npush, nblk, nfail, ncrash, nclose, nerr, nfatal, Ghosts, out>>
 
 (* ---------------------------------------------------------------- the sequencer's listener *)
 (* o: outcome of builder.RunTxns for the batch: "ok" | "txerr" (vm.TransactionExecutionError,
@@ -286,16 +298,17 @@ WaitPoll ==
 CDrain(c, o) ==
   /\ Up /\ cs[c] = "drain"
   /\ IF mem = <<>>
-     THEN /\ o = "ok" /\ cs' = [cs EXCEPT ![c] = "wait"] /\ UNCHANGED <<mem, popd, exec, nerr>>
+     THEN /\ o = "ok" /\ cs' = [cs EXCEPT ![c] = "wait"] /\ UNCHANGED <<mem, popd, exec, nerr, nfatal>>
           /\ res' = [kind |-> "empty"]
-     ELSE LET k == Min(Batch, Len(mem)) IN
+     ELSE LET k == Min(IF Mutant = "bigbatch" THEN Batch + 1 ELSE Batch, Len(mem)) IN
           /\ mem' = Rest(k) /\ popd' = popd \o Take(k)
           /\ exec' = Append(exec, <<Take(k), o>>)
-          /\ (o # "ok" => nerr < MaxExecErr) /\ nerr' = (IF o = "ok" THEN nerr ELSE nerr + 1)
+          /\ (o = "txerr" => nerr < MaxExecErr) /\ nerr' = (IF o = "txerr" THEN nerr + 1 ELSE nerr)
+          /\ (o = "fatal" => nfatal < MaxFatal) /\ nfatal' = (IF o = "fatal" THEN nfatal + 1 ELSE nfatal)
           /\ cs' = [cs EXCEPT ![c] = IF o = "fatal" THEN "dead" ELSE "drain"]
           /\ res' = [kind |-> "txs", txs |-> Take(k)]
   /\ act' = [name |-> "CDrain", c |-> c, o |-> o]
-  /\ UNCHANGED <<st, wq, wcur, Db, token, pu, Chain, npush, nblk, nfail, ncrash, nclose, npop, acc, everPopped, want, wlog, lostw, out>>
+  /\ UNCHANGED <<st, wq, wcur, Db, token, pu, Chain, npush, nblk, nfail, ncrash, nclose, npop, acc, everPopped, want, owed, wlog, out>>
 
 CWake(c) ==
   /\ Up /\ cs[c] = "wait" /\ token = 1
@@ -308,10 +321,10 @@ Close ==
   /\ st = "open" /\ nclose < MaxClose /\ nclose' = nclose + 1
   /\ st' = "closing"
   /\ act' = [name |-> "Close"] /\ res' = [kind |-> "none"]
-  /\ UNCHANGED <<mem, wq, wcur, Db, token, pu, cs, Chain, npush, nblk, nfail, ncrash, npop, nerr, Ghosts, out>>
+  /\ UNCHANGED <<mem, wq, wcur, Db, token, pu, cs, Chain, npush, nblk, nfail, ncrash, npop, nerr, nfatal, Ghosts, out>>
 
 CloseDone ==
-  /\ st = "closing" /\ (Mutant = "nodrain" \/ (wq = <<>> /\ wcur = None))
+  /\ st = "closing" /\ (Mutant = "nodrain" \/ (wq = <<>> /\ wcur = None /\ (Mutant = "splitlen" => dl = Len(wlog))))
   /\ st' = "closed"
   /\ act' = [name |-> "CloseDone"] /\ res' = [kind |-> "none"]
   /\ UNCHANGED <<mem, wq, wcur, Db, token, pu, cs, Chain, Bounds, Ghosts, out>>
@@ -325,8 +338,9 @@ Crash ==
   /\ everPopped' = everPopped \cup Range(popd)
   /\ acc' = <<>> /\ popd' = <<>>
   /\ want' = SelectSeq(want, LAMBDA t : t \in Range(wlog))     \* what was still queued dies with the process
+  /\ owed' = owed \cap Range(wlog)
   /\ act' = [name |-> "Crash"] /\ res' = [kind |-> "none"]
-  /\ UNCHANGED <<Db, Chain, npush, nblk, nfail, nclose, npop, nerr, wlog, lostw, exec>>
+  /\ UNCHANGED <<Db, Chain, npush, nblk, nfail, nclose, npop, nerr, nfatal, wlog, exec>>
 
 (* New on the surviving database; load = LoadFromDB is called (the repository's tests do, node.go
    does not) *)
@@ -337,10 +351,12 @@ Reopen(load) ==
   /\ popd' = <<>>
   /\ cs' = [c \in Consumers |-> "drain"]
   /\ IF ~load THEN st' = "open" /\ mem' = <<>> /\ acc' = <<>> /\ res' = [kind |-> "ok"]
-     ELSE IF WalkOK THEN st' = "open" /\ mem' = Walk /\ acc' = Walk /\ res' = [kind |-> "ok"]
+     ELSE IF WalkOK THEN /\ st' = "open" /\ res' = [kind |-> "ok"]
+                         /\ mem' = (IF Mutant = "loadrev" THEN [i \in 1..Len(Walk) |-> Walk[Len(Walk) + 1 - i]] ELSE Walk)
+                         /\ acc' = mem'
      ELSE st' = "hung" /\ mem' = <<>> /\ acc' = <<>> /\ res' = [kind |-> "hang"]    \* LoadFromDB never returns
   /\ act' = [name |-> "Reopen", load |-> load]
-  /\ UNCHANGED <<Db, pu, Chain, Bounds, want, wlog, lostw, exec, out>>
+  /\ UNCHANGED <<Db, pu, Chain, Bounds, want, owed, wlog, exec, out>>
 
 (* the chain advances: the first block deploys the accounts, a later one moves one nonce *)
 StoreBlock(a) ==
@@ -348,11 +364,11 @@ StoreBlock(a) ==
   /\ height' = height + 1
   /\ hn' = IF height = 0 THEN hn ELSE [hn EXCEPT ![a] = @ + 1]
   /\ act' = [name |-> "StoreBlock", a |-> a] /\ res' = [kind |-> "none"]
-  /\ UNCHANGED <<st, mem, wq, wcur, Db, token, pu, cs, npush, nfail, ncrash, nclose, npop, nerr, Ghosts, out>>
+  /\ UNCHANGED <<st, mem, wq, wcur, Db, token, pu, cs, npush, nfail, ncrash, nclose, npop, nerr, nfatal, Ghosts, out>>
 
 Next ==
   \/ \E p \in Pushers : (\E t \in Txs : PushStart(p, t)) \/ PushInternal(p)
-  \/ WTake \/ WWrite("ok") \/ WWrite("fail")
+  \/ WTake \/ WWrite("ok") \/ WWrite("fail") \/ WLen
   \/ Pop \/ (\E n \in 0..(Batch + 1) : PopBatch(n)) \/ WaitPoll
   \/ \E c \in Consumers : CWake(c) \/ \E o \in {"ok", "txerr", "fatal"} : CDrain(c, o)
   \/ Close \/ CloseDone \/ Crash \/ Reopen(TRUE) \/ Reopen(FALSE)
@@ -400,14 +416,14 @@ DbConsistent ==
 (* the list is exactly the transactions whose batch was applied, in that order *)
 DbIsLog == WalkOK /\ Walk = wlog
 
-(* durability: what is persisted is a prefix of what was handed to the writer, nothing is skipped
-   (while no write failed), and what is neither persisted nor queued does not exist *)
-DurablePrefix == ~lostw => (WalkOK /\ IsPrefix(Walk, want))
-DurableSubseq == WalkOK /\ IsSubseq(Walk, want)
-NothingDropped == ~lostw => (LET inflight == (IF wcur = None THEN <<>> ELSE <<wcur>>) \o wq
-                             IN \A t \in Range(want) : t \in Range(wlog) \/ t \in Range(inflight))
-(* a graceful Close persists everything that was accepted *)
-CloseFlushesAll == (st = "closed" /\ ~lostw) => (WalkOK /\ Walk = want)
+(* durability.  While no write failed, what is persisted is a prefix of what was handed to the
+   writer, in that order.  Always: a transaction handed to the writer is persisted, or still on
+   its way, or its write failure was logged — nothing disappears silently; and a graceful Close
+   persists everything owed. *)
+DurablePrefix == nfail = 0 => (WalkOK /\ IsPrefix(Walk, want))
+NothingDropped == LET inflight == (IF wcur = None THEN <<>> ELSE <<wcur>>) \o wq
+                  IN \A t \in owed : t \in Range(wlog) \/ t \in Range(inflight)
+CloseFlushesAll == st = "closed" => (WalkOK /\ owed \subseteq Range(Walk) /\ (nfail = 0 => Walk = want))
 
 (* after New + LoadFromDB the pool holds exactly the persistent list *)
 ReloadIsTheLog ==
